@@ -405,7 +405,7 @@ pub fn apply<P: PType>(map: &mut PrefixMap<P, u32>, model: &mut Model, w: &Walk,
         }
         K::Clear => {
             map.clear();
-            model.m.clear();
+            model.clear();
         }
         K::Retain => {
             let before = model.entries();
